@@ -360,8 +360,8 @@ CHECKS['C17'] = dict(
          'round trips through EventQueue<int, void(const AnyData&)> (enqueue, dispatch, process*, clearEvents, destruction with events pending, re-entrant enqueue); random mode + exhaustive mode (every type x '
          'every construction form); plus the AnyData family of the C09 fault enumeration (a held object whose copy/move throws, or an allocation failure, at every point of enqueue/process: every held '
          'object still destroyed exactly once); non-trivial = held >=1 inline and >=1 heap object and performed >=1 AnyData move; distinct = trace hash',
-    jobs=JS('drv_anydata', 'asan17', 'random', 30000, 1500000, [1, 2, 4], macro='VF_CAP_MASK', shards=3, shards_thorough=5)
-         + JS('drv_anydata', 'asan17', 'exhaustive', 240, 9000, [1, 2, 4], macro='VF_CAP_MASK', seed_offset=1, shards=3, shards_thorough=5)
+    jobs=JS('drv_anydata', 'asan17', 'random', 30000, 1500000, [1, 2, 4, 8], macro='VF_CAP_MASK', shards=3, shards_thorough=5)
+         + JS('drv_anydata', 'asan17', 'exhaustive', 240, 9000, [1, 2, 4, 8], macro='VF_CAP_MASK', seed_offset=1, shards=3, shards_thorough=5)
          + [J('drv_fault', 'asan17-fault', '', 720, 14400, defs=['-DVF_CFG_MASK=0x100'], opts={'kind': '8'}, seed_offset=2, shards=8, shards_thorough=16)],
     assumptions=['over-aligned types (alignment > 8) are not promised by the statement and not stored', 'takeEvent/peekEvent do not compile with an AnyData argument and are not used'],
     technique='differential runtime monitor with address-tracked payload ledger, exhaustive sweep over object sizes 1..capacity+24 and construction forms, ASan+UBSan',
